@@ -40,6 +40,10 @@ func main() {
 		code = scenarioRelay()
 	case "stamp":
 		code = scenarioStamp()
+	case "dialog":
+		code = scenarioDialog()
+	case "pintime":
+		code = scenarioPinTime()
 	default:
 		fmt.Println("unknown scenario", flag.Arg(0))
 		code = 2
